@@ -259,6 +259,12 @@ theorem WF_stepOp {cfg s} (o : Op) (h : WF cfg s) : WF cfg (stepOp cfg o s).1 :=
     split
     · exact ⟨h.cache, h.sel, h.diagKeys, h.compatKeys⟩
     · exact h
+  | newFwd => exact ⟨h.cache, h.sel, h.diagKeys, h.compatKeys⟩
+  | assignFwd i j =>
+    simp only [stepOp]
+    split
+    · exact ⟨h.cache, h.sel, h.diagKeys, h.compatKeys⟩
+    · exact h
 
 /-! ### exact description of `restore (save s) t` -/
 
@@ -543,10 +549,15 @@ theorem stepOp_builtins (cfg : Cfg) (o : Op) (s : State) :
     left
     simp only [stepOp]
     split <;> exact ⟨rfl, rfl⟩
+  | assignFwd i j =>
+    left
+    simp only [stepOp]
+    split <;> exact ⟨rfl, rfl⟩
   | _ => exact Or.inl ⟨rfl, rfl⟩
 
-/-- the `copyDefaultWhiteChars` flags of a list of built-ins (never changed by any command) -/
-def flagsOf (l : List Expr) : List Bool := l.map (·.copyDef)
+/-- the `copyDefaultWhiteChars` flags (and "unassigned Forward" marks) of a list of built-ins
+    (never changed by any command) -/
+def flagsOf (l : List Expr) : List (Bool × Bool) := l.map (fun e => (e.copyDef, e.fwdEmpty))
 
 theorem flagsOf_assignWs : ∀ (l : List Expr) (ws : List (List Char)), flagsOf (assignWs l ws) = flagsOf l
   | [], _ => by simp [assignWs]
@@ -605,13 +616,16 @@ theorem enableLRTail_users (cap : Option Int) (s : State) : (enableLRTail cap s)
   | none => rfl
   | some n => simp only; split <;> rfl
 
-/-- every operation other than the user's own `set_whitespace_chars` leaves the existing user
+/-- every operation other than the user's own `set_whitespace_chars` / `fwd <<= e` leaves the existing user
     expressions alone (it may append new ones) -/
-theorem stepOp_users (cfg : Cfg) (o : Op) (s : State) (ho : ∀ i c cd, o ≠ .exprSetWs i c cd) :
+theorem stepOp_users (cfg : Cfg) (o : Op) (s : State) (ho : ∀ i c cd, o ≠ .exprSetWs i c cd)
+    (ho' : ∀ i j, o ≠ .assignFwd i j) :
     ∃ e1, (stepOp cfg o s).1.users = s.users ++ e1 := by
   cases o with
   | exprSetWs i ch cd => exact absurd rfl (ho i ch cd)
+  | assignFwd i j => exact absurd rfl (ho' i j)
   | newExpr => exact ⟨[newExpr s], rfl⟩
+  | newFwd => exact ⟨[newFwd s], rfl⟩
   | copyExpr i =>
     simp only [stepOp]
     split
